@@ -22,6 +22,14 @@ def gen(tier, rng, shard, nshards):
         o = S.Opts(dtmode=dtm, clean=clean, max_dim=int(S.pick(rng, [4, 6, 8, 12])))
         depth = int(S.pick(rng, [0, 1, 1, 2, 2, 3, 4]))
         node = S.gen_tree(rng, depth, o)
+        if rng.random() < 0.06:
+            # directed: Kronecker products / sums of three or four distinct parts assembled through the public functions in
+            # either nesting order (flattening rules of kron / kronsum)
+            k = S.pick(rng, ["Kronecker", "KronSum"])
+            sizes = [int(x) for x in rng.integers(2, 4, size=int(rng.integers(3, 5)))]
+            parts = [S.gen_tree(rng, 0, o, (a, a)) for a in sizes]
+            if all(p is not None for p in parts):
+                node = {"k": k, "via": S.pick(rng, ["fn", "fn-right", "fn-right"]), "args": parts}
         xdt = S.pick(rng, S.ALL_DT) if dtm.startswith("mixed") else S.pick(rng, [dtm, dtm, dtm] + S.ALL_DT)
         yield {"spec": node, "xdt": xdt, "xcols": int(S.pick(rng, [0, 1, 2, 3, 5])), "xseed": S.seed(rng)}
 
